@@ -107,46 +107,10 @@ func r107(c *Ctx, r *R) {
 	sites, _ := c.callSitesOf(rp)
 	for _, s := range sites {
 		f := s.Parent()
-		b := s.Block()
-		// innermost natural loop containing the call
-		var header *ssa.BasicBlock
-		for d := b; d != nil; d = d.Idom() {
-			if inNaturalLoop(b, d) {
-				header = d
-				break
-			}
-		}
-		if header == nil {
+		bad, inLoop := sweepCanStop(s)
+		if !inLoop {
 			r.Und("sweep:"+f.Name(), s.Pos(), "the re-pin call in %s is not inside a loop", f.Name())
 			continue
-		}
-		// after the call every path must come back to the loop header
-		// before leaving the loop: neither a return nor a break may depend
-		// on the outcome of one re-pin
-		bad := false
-		seen := map[*ssa.BasicBlock]bool{}
-		var walk func(x *ssa.BasicBlock)
-		walk = func(x *ssa.BasicBlock) {
-			if seen[x] || x == header {
-				return
-			}
-			seen[x] = true
-			if !inNaturalLoop(x, header) {
-				bad = true // left the loop without passing the header
-				return
-			}
-			if _, ok := x.Instrs[len(x.Instrs)-1].(*ssa.Return); ok && x != f.Recover {
-				bad = true
-			}
-			for _, n := range x.Succs {
-				walk(n)
-			}
-		}
-		for _, n := range b.Succs {
-			walk(n)
-		}
-		if _, ok := b.Instrs[len(b.Instrs)-1].(*ssa.Return); ok {
-			bad = true
 		}
 		r.Check(!bad, "sweep:"+f.Name(), s.Pos(), "after re-pinning one pin the sweep always continues with the next", f.Name()+" can stop the sweep after one re-pin (a return or break inside the loop): one pin that cannot be re-allocated leaves all later pins on the failed/removed peer")
 	}
@@ -1670,7 +1634,7 @@ func r069(c *Ctx, r *R) {
 }
 
 func init() {
-	register(&Rule{ID: "R03.6", Props: []string{"C03"}, Floor: 3, Title: "obtainAllocations counts like with like: `needed`/`wanted` are the factors minus the healthy current holders, and everything compared with them counts new peers only (candidates, the allocator's answer), never the current holders again", Run: r036})
+	register(&Rule{ID: "R03.6", Props: []string{"C03", "C10"}, Floor: 3, Title: "obtainAllocations counts like with like: `needed`/`wanted` are the factors minus the healthy current holders, and everything compared with them counts new peers only (candidates, the allocator's answer), never the current holders again", Run: r036})
 }
 
 func r036(c *Ctx, r *R) {
@@ -1762,6 +1726,40 @@ func r036(c *Ctx, r *R) {
 	}
 	if n < 2 {
 		r.Und("compare", f.Pos(), "fewer than two comparisons against needed/wanted found (%d)", n)
+	}
+	// thresholds: the allocator is consulted exactly when peers are needed
+	// (needed > 0): a pin that has its minimum number of healthy holders
+	// gets no new allocation (needed == 0 included), and holders are
+	// dropped only above the maximum (wanted < 0)
+	posOf := func(g Guard, name string) (positive bool, ok bool) {
+		// the guard decides the sign of a quota: returns whether it
+		// establishes quota > 0 (true) or quota <= 0 (false)
+		bo, isB := g.Cond.(*ssa.BinOp)
+		if !isB {
+			return false, false
+		}
+		k, isK := constInt(bo.Y)
+		if quota[bo.X] != name || !isK {
+			return false, false
+		}
+		switch {
+		case bo.Op == token.GTR && k == 0, bo.Op == token.GEQ && k == 1:
+			return g.Branch, true
+		case bo.Op == token.LEQ && k == 0, bo.Op == token.LSS && k == 1:
+			return !g.Branch, true
+		}
+		return false, false
+	}
+	al := findCalls(f, false, ModPath+".PinAllocator).Allocate")
+	if len(al) == 1 {
+		ok := guardedBy(al[0].Block(), func(g Guard) bool { p, isQ := posOf(g, "needed"); return isQ && p })
+		r.Check(ok, "threshold:allocate-only-when-needed", al[0].Pos(), "new peers are allocated only when fewer healthy holders than the minimum remain (needed > 0)", "the allocator is consulted although the pin already has its minimum number of healthy holders (the test on `needed` is not `needed <= 0`): a pin at exactly its minimum is moved or extended on every re-pin sweep")
+	}
+	for _, ret := range returnsOf(f) {
+		if len(ret.Results) == 2 && isNilConst(retResult(ret, 0)) && isNilConst(retResult(ret, 1)) {
+			ok := guardedBy(ret.Block(), func(g Guard) bool { p, isQ := posOf(g, "needed"); return isQ && !p })
+			r.Check(ok, "threshold:nothing-new-when-satisfied", ret.Pos(), "`no new allocations` is answered exactly under needed <= 0", "obtainAllocations answers `nothing to allocate` under a test other than needed <= 0")
+		}
 	}
 }
 
@@ -2384,4 +2382,196 @@ func missingEdge(cond ssa.Value, depth int) (when bool, ok bool) {
 		when = !when
 	}
 	return when, true
+}
+
+// sweepCanStop: the call sits in a loop (inLoop) and some path from it
+// leaves the loop or the function without coming back to the loop header
+// first (bad): a return or break that depends on the outcome of one element.
+func sweepCanStop(s ssa.CallInstruction) (bad bool, inLoop bool) {
+	f := s.Parent()
+	b := s.Block()
+	var header *ssa.BasicBlock
+	for d := b; d != nil; d = d.Idom() {
+		if inNaturalLoop(b, d) {
+			header = d
+			break
+		}
+	}
+	if header == nil {
+		return false, false
+	}
+	seen := map[*ssa.BasicBlock]bool{}
+	var walk func(x *ssa.BasicBlock)
+	walk = func(x *ssa.BasicBlock) {
+		if seen[x] || x == header {
+			return
+		}
+		seen[x] = true
+		if !inNaturalLoop(x, header) {
+			bad = true // left the loop without passing the header
+			return
+		}
+		if _, ok := x.Instrs[len(x.Instrs)-1].(*ssa.Return); ok && x != f.Recover {
+			bad = true
+		}
+		for _, n := range x.Succs {
+			walk(n)
+		}
+	}
+	for _, n := range b.Succs {
+		walk(n)
+	}
+	if _, ok := b.Instrs[len(b.Instrs)-1].(*ssa.Return); ok {
+		bad = true
+	}
+	return bad, true
+}
+
+func init() {
+	register(&Rule{ID: "R14.7", Props: []string{"C14"}, Floor: 2, Title: "restoring saved state keeps what can be kept: importing a peerstore continues past an address that cannot be imported, and cleaning raft data discards the folder without a backup only when it was read and found to hold no snapshot", Run: r147})
+}
+
+func r147(c *Ctx, r *R) {
+	// (a) ImportPeers is a sweep over the saved addresses
+	if ip := c.fn(r, "pstoremgr", "Manager.ImportPeers"); ip != nil {
+		n := 0
+		for _, ci := range findCalls(ip, false, "pstoremgr.Manager).ImportPeer") {
+			n++
+			bad, inLoop := sweepCanStop(ci)
+			r.Check(inLoop && !bad, "peerstore:import-continues", ci.Pos(), "an address that cannot be imported does not stop the import of the following ones", "ImportPeers stops at the first address it cannot import (a return or break depends on one element): every later peer of the saved peerstore is lost, silently - the callers ignore the error")
+		}
+		if n == 0 {
+			r.Und("peerstore:import", ip.Pos(), "ImportPeers does not call ImportPeer: shape not recognised")
+		}
+	}
+	// (b) CleanupRaft: a data folder is removed without being kept as a
+	// backup only if latestSnapshot read it successfully and found nothing
+	if cr := c.fn(r, "consensus/raft", "CleanupRaft"); cr != nil {
+		var ls *ssa.Call
+		for _, ci := range findCalls(cr, false, "consensus/raft.latestSnapshot") {
+			ls, _ = ci.(*ssa.Call)
+		}
+		rm := findCalls(cr, false, "=os.RemoveAll")
+		if ls == nil || len(rm) == 0 {
+			r.Und("raft-clean:shape", cr.Pos(), "CleanupRaft: latestSnapshot / os.RemoveAll not found")
+			return
+		}
+		for _, ci := range rm {
+			noSnap := guardedBy(ci.Block(), func(g Guard) bool {
+				return gNil(g, false, func(v ssa.Value) bool { cc, idx := originCall(v); return cc == ls && idx == 0 })
+			})
+			readOK := guardedBy(ci.Block(), func(g Guard) bool {
+				return gNil(g, false, func(v ssa.Value) bool { cc, idx := originCall(v); return cc == ls && idx == 2 })
+			})
+			r.Check(noSnap && readOK, "raft-clean:remove-only-when-empty", ci.Pos(), "the folder is removed outright only when it was read without error and holds no snapshot", fmt.Sprintf("CleanupRaft removes the data folder outright without having established both `no snapshot` (%v) and `read without error` (%v): a folder whose newest snapshot is damaged is deleted instead of being kept as a backup, older valid snapshots and the log included", noSnap, readOK))
+		}
+	}
+}
+
+func init() {
+	register(&Rule{ID: "R16.7", Props: []string{"C16", "C11"}, Floor: 1, Title: "error values are recognised in the form they are produced in: where the repository type-asserts an error to one of its own error types (T or *T), that very form is what the repository wraps into error values (an assertion to T never matches a *T)", Run: r167})
+}
+
+// r167: `err.(ipfsError)` and `return body, &ipfsError{...}` each look fine
+// alone; together the assertion never succeeds and the branch that
+// recognises the daemon's "not pinned" answer is dead. The compiler cannot
+// see it (both forms implement error). Checked for every assertion of an
+// error-typed value to a repository type: the asserted form must be among
+// the forms in which that type is converted to an interface anywhere in the
+// repository.
+func r167(c *Ctx, r *R) {
+	errT := types.Universe.Lookup("error").Type().Underlying().(*types.Interface)
+	named := func(t types.Type) (*types.Named, bool) {
+		ptr := false
+		if p, ok := t.(*types.Pointer); ok {
+			t, ptr = p.Elem(), true
+		}
+		n, _ := t.(*types.Named)
+		return n, ptr
+	}
+	// forms produced: MakeInterface of T / *T
+	produced := map[*types.Named]map[bool]token.Pos{}
+	c.P.RepoFuncs(func(f *ssa.Function) {
+		if isTestSupportFn(f) {
+			return
+		}
+		instrs(f, func(i ssa.Instruction) {
+			mi, ok := i.(*ssa.MakeInterface)
+			if !ok {
+				return
+			}
+			n, ptr := named(mi.X.Type())
+			if n == nil || n.Obj().Pkg() == nil || !isRepoPath(n.Obj().Pkg().Path()) {
+				return
+			}
+			if !types.Implements(mi.X.Type(), errT) {
+				return
+			}
+			if produced[n] == nil {
+				produced[n] = map[bool]token.Pos{}
+			}
+			produced[n][ptr] = mi.Pos()
+		})
+	})
+	nAssert := 0
+	c.P.RepoFuncs(func(f *ssa.Function) {
+		if isTestSupportFn(f) {
+			return
+		}
+		instrs(f, func(i ssa.Instruction) {
+			ta, ok := i.(*ssa.TypeAssert)
+			if !ok || !types.Identical(ta.X.Type().Underlying(), errT) {
+				return
+			}
+			n, ptr := named(ta.AssertedType)
+			if n == nil || n.Obj().Pkg() == nil || !isRepoPath(n.Obj().Pkg().Path()) {
+				return
+			}
+			nAssert++
+			forms := produced[n]
+			_, same := forms[ptr]
+			_, other := forms[!ptr]
+			key := fmt.Sprintf("assert:%s:%s", f.Name(), types.TypeString(ta.AssertedType, shortQual))
+			switch {
+			case same:
+				r.OK(key, ta.Pos(), "%s is produced in the asserted form", types.TypeString(ta.AssertedType, shortQual))
+			case other:
+				r.Bad(key, ta.Pos(), "%s asserts an error to %s, but the repository only ever wraps this type in the other form (%s): the assertion never succeeds and the case it recognises is handled as a generic failure", f.Name(), types.TypeString(ta.AssertedType, shortQual), c.P.Pos(forms[!ptr]))
+			default:
+				r.OK(key, ta.Pos(), "%s is not produced as an error value in the repository (comes from elsewhere)", types.TypeString(ta.AssertedType, shortQual))
+			}
+		})
+	})
+	if nAssert == 0 {
+		r.Und("assert", token.NoPos, "no assertion of an error to a repository type found (the connector's recognition of IPFS API errors was expected)")
+	}
+}
+
+func init() {
+	register(&Rule{ID: "R15.13", Props: []string{"C15"}, Floor: 2, Title: "option blocks merged into an already-loaded configuration override it: every mergo.Merge on the from-JSON side passes WithOverride (loaders also run on loaded configurations - ApplyEnvVars after LoadJSON - where a non-overriding merge silently keeps the old value)", Run: r1513})
+}
+
+func r1513(c *Ctx, r *R) {
+	n := 0
+	c.P.RepoFuncs(func(f *ssa.Function) {
+		if isTestSupportFn(f) {
+			return
+		}
+		for _, ci := range findCalls(f, false, "imdario/mergo.Merge") {
+			n++
+			args := ci.Common().Args
+			ok := false
+			if len(args) > 0 {
+				for _, el := range variadicElems(args[len(args)-1]) {
+					if fn := fnOfValue(el); fn != nil && strings.HasSuffix(fn.String(), "mergo.WithOverride") {
+						ok = true
+					}
+				}
+			}
+			r.Check(ok, "merge-overrides:"+f.String(), ci.Pos(), "the merge overrides what the configuration already holds", f.String()+" merges loaded options into the configuration without mergo.WithOverride: when the loader runs on an already-loaded configuration (environment overrides after the file) a value that differs from the one already set is silently dropped")
+		}
+	})
+	if n == 0 {
+		r.Und("merge", token.NoPos, "no mergo.Merge call found (the datastore option blocks were expected)")
+	}
 }
